@@ -50,7 +50,8 @@ class Out:
         self.cases.add(key)
 
     def fail(self, scenario, observed, required, finding=None):
-        if len(self.failures) < 40:
+        # (capped per finding id: failures that match an open finding must not crowd out one that matches none)
+        if len([f for f in self.failures if f["finding"] == finding]) < (40 if finding is None else 8):
             self.failures.append({"finding": finding, "scenario": scenario, "observed": observed, "required": required})
 
     def dump(self, error=None):
@@ -85,7 +86,7 @@ class RecordingAgent(agent.CommunityAgent):
         return node
 
 
-def walk_case(db, roots, bulk, truncate=None):
+def walk_case(db, roots, bulk, truncate=None, max_requests=400):
     ag = RecordingAgent(db, truncate=truncate)
     c = Client("127.0.0.1", V2C("public"), sender=ag)
 
@@ -94,7 +95,7 @@ def walk_case(db, roots, bulk, truncate=None):
         it = c.bulkwalk([OID(otext(r)) for r in roots], bulk_size=bulk) if bulk else c.multiwalk([OID(otext(r)) for r in roots])
         async for vb in it:
             out.append(tuple(vb.oid.nodes))
-            if len(ag.log) > 400:
+            if len(ag.log) > max_requests:
                 raise RuntimeError("runaway")
         return out
     try:
@@ -134,6 +135,35 @@ def suite_walks(out, tier, seed, only=None):
             scen = {"kind": "walk", "db": [list(o) for o, _ in db], "roots": [list(r) for r in roots], "bulk": bulk, "cut": cut}
             finding = sorted(pats)[0] if pats else None
             out.fail(scen, {"got": got, "exception": exc}, {"instances_below_roots": want}, finding=finding)
+    large_walks(out, only)
+
+
+def large_walks(out, only):
+    """LARGE: many roots (spaced, so that no column overruns into another requested subtree) and long adjacent columns"""
+    cases = []
+    for nroots in (7, 12):
+        db, roots = [], []
+        for i in range(nroots):
+            r = (1, 3, 10 + 2 * i)
+            roots.append(r)
+            db += [(r + (j,), ("int", ber.INT, j)) for j in range(1, 24 + i % 3)]
+            db += [((1, 3, 11 + 2 * i, j), ("int", ber.INT, j)) for j in range(1, 26)]      # not requested
+        db += [((1, 3, 90, j), ("int", ber.INT, j)) for j in range(1, 40)]      # (no end of the MIB view in sight)
+        for bulk in (None, 10, 20):
+            cases.append((db, list(reversed(roots)), bulk))
+    cols = [(1, 3, 50, c) for c in (1, 2, 3)]
+    db = [(c + (j,), ("int", ber.INT, j)) for c in cols for j in range(1, 601)] + [((1, 3, 51, j), ("int", ber.INT, 0)) for j in range(1, 40)]
+    for bulk in (None, 10):
+        cases.append((db, cols, bulk))
+    for db, roots, bulk in cases:
+        if (only == "getnext" and bulk) or (only == "bulk" and not bulk):
+            continue
+        out.case(("large-walk", len(roots), len(db), bulk))
+        ok, got, exc, want, pats = walk_case(db, roots, bulk, None, max_requests=5000)
+        if not ok:
+            scen = {"kind": "large-walk", "roots": len(roots), "instances": len(db), "bulk": bulk}
+            obs = exc or "%d delivered (%d distinct) of %d" % (len(got), len(set(got)), len(want))
+            out.fail(scen, obs, "%d instances, each exactly once" % len(want), finding=sorted(pats)[0] if pats else None)
 
 
 def replay_walk(s):
@@ -171,6 +201,50 @@ def suite_wire(out, tier, seed, part=None):
         if read != o:
             out.fail({"kind": "emit-oid", "oid": list(o)}, {"independent_decoder_reads": list(read) if isinstance(read, tuple) else read},
                      {"oid": list(o)}, finding="D16" if len(o) == 1 else None)
+    # LARGE: long OID lists and many walk roots reach the wire as ONE request carrying all of them, in order, with the caller's
+    # max-repetitions
+    if part in (None, "emit"):
+        for k in (11, 17, 49, 70, 130, 300):
+            want = [(1, 3, 6, 1, 4, 1, 100 + i, i * 97 % 70000) for i in range(k)]
+            for op in ("multiget", "multigetnext", "multiset"):
+                ag = Capture([])
+                c = Client("127.0.0.1", V2C("public"), sender=ag)
+                n0 = len(sent)
+                out.case(("emit-large", op, k))
+                try:
+                    if op == "multiset":
+                        run(c.multiset({OID(otext(o)): Integer(i) for i, o in enumerate(want)}))
+                    else:
+                        run(getattr(c, op)([OID(otext(o)) for o in want]))
+                except Exception:
+                    pass
+                try:
+                    msgs = [ber.parse_community_message(d) for d in sent[n0:]]
+                    read = [[vb[0] for vb in m["pdu"]["varbinds"]] for m in msgs]
+                except Exception as e:  # noqa
+                    read = "undecodable: %s" % e
+                if read != [want]:
+                    out.fail({"kind": "emit-list", "op": op, "k": k}, {"datagrams": len(sent) - n0, "oids_per_datagram": [len(r) for r in read] if isinstance(read, list) else read},
+                             "one datagram with the caller's %d OIDs in order" % k)
+        for nroots, size in ((3, 10), (6, 10), (7, 10), (12, 10), (4, 20), (12, 1), (30, 60), (2, 200)):
+            roots = [(1, 3, 6, 1, 4, 1, 200 + i) for i in range(nroots)]
+            ag = Capture([(r + (1,), ("int", ber.INT, 1)) for r in roots])
+            c = Client("127.0.0.1", V2C("public"), sender=ag)
+            n0 = len(sent)
+            out.case(("emit-bulkwalk", nroots, size))
+            try:
+                run(collect(c.bulkwalk([OID(otext(o)) for o in roots], bulk_size=size)))
+            except Exception:
+                pass
+            try:
+                first = ber.parse_community_message(sent[n0])["pdu"]
+                obs = {"oids": [vb[0] for vb in first["varbinds"]], "non_repeaters": first["f1"], "max_repetitions": first["f2"]}
+            except Exception as e:  # noqa
+                obs = {"undecodable": str(e)}
+            if obs != {"oids": roots, "non_repeaters": 0, "max_repetitions": size}:
+                out.fail({"kind": "emit-bulkwalk", "roots": nroots, "bulk_size": size},
+                         {k_: (len(v) if isinstance(v, list) else v) for k_, v in obs.items()},
+                         "first GETBULK: the %d roots in order, no non-repeaters, max-repetitions %d" % (nroots, size))
     # responses: every value type x boundary values x definite length forms, read back through multiget
     values = []
     for v in (0, 1, -1, 127, 128, -128, -129, 255, 256, 2 ** 31 - 1, -2 ** 31, 2 ** 32 - 1, 2 ** 63, 2 ** 64 - 1):
@@ -316,6 +390,77 @@ def suite_usm(out, tier, seed):
             if not ok:
                 out.fail({"kind": "forgery-in-walk", "hash": hashname, "mode": [str(m) for m in mode]}, obs,
                          "an exception or the complete walk (%d instances)" % len(full))
+        # ---- LARGE: long messages, repeated request ids, many requests in flight (state kept per message prefix, per request
+        #      id or per recent request shows only here)
+        import puresnmp.api.raw as raw
+        ldb = [((1, 3, 6, 1, 2, 1, 1, 5, 0), ("bytes", ber.OCTETS, bytes(range(256)) * 3))]
+        lag = agent.V3Agent(ldb, auth=(hashname, b"authpass1"))
+        lstate = {"first": None, "alter": None}
+
+        async def lmitm(endpoint, data, timeout=1, loop=None, retries=10, lag=lag, lstate=lstate):
+            reply = await lag(endpoint, data)
+            if ber.parse_v3_message(data)["user"] == b"":
+                return reply
+            if lstate["first"] is None:
+                lstate["first"] = reply
+                return reply
+            if lstate["alter"] is None:
+                return reply
+            b = bytearray(lstate["first"])          # the earlier authentic answer, its tail altered, its digest kept
+            b[lstate["alter"]] ^= 0x20
+            return bytes(b)
+        saved = raw.get_request_id
+        raw.get_request_id = lambda: 424242          # two requests within one second
+        try:
+            c = Client("127.0.0.1", creds, sender=lmitm)
+            long_authentic = run(c.get(OID("1.3.6.1.2.1.1.5.0")))
+            n1 = len(lstate["first"])
+            for pos in (n1 - 1, n1 - 17, n1 - 300, 300, 257):
+                lstate["alter"] = pos
+                out.case((hashname, "replayed-long-answer-altered-at", pos))
+                signal.alarm(2)
+                try:
+                    got = run(c.get(OID("1.3.6.1.2.1.1.5.0")))
+                    ok, obs = got.value == long_authentic.value, "a value altered at octet %d of %d was returned" % (pos, n1)
+                except TimeoutError:
+                    ok, obs = True, "hang"
+                except Exception as e:  # noqa
+                    ok, obs = True, "exception %s" % type(e).__name__
+                finally:
+                    signal.alarm(0)
+                if not ok:
+                    out.fail({"kind": "forgery-long-replay", "hash": hashname, "altered_octet": pos, "message_octets": n1}, obs,
+                             "an exception or exactly the authentic value")
+        finally:
+            raw.get_request_id = saved
+        for inflight in (3, 6, 9):
+            cnt = {"n": 0}
+
+            async def cmitm(endpoint, data, timeout=1, loop=None, retries=10, ag=ag, cnt=cnt, inflight=inflight):
+                reply = await ag(endpoint, data)
+                if ber.parse_v3_message(data)["user"] == b"":
+                    return reply
+                cnt["n"] += 1
+                mine = cnt["n"]
+                await asyncio.sleep(0.02)              # every request of the batch is out before the first answer is processed
+                return forge(reply, ("flags", 0), ag) if mine >= inflight - 1 else reply
+
+            async def batch(c, inflight=inflight):
+                await c.get(OID("1.3.6.1.2.1.1.5.0"))          # (discovery done)
+                cnt["n"] = 0
+                return await asyncio.gather(*[c.get(OID("1.3.6.1.2.1.1.5.0")) for _ in range(inflight)], return_exceptions=True)
+            out.case((hashname, "in-flight", inflight))
+            signal.alarm(5)
+            try:
+                res = run(batch(Client("127.0.0.1", creds, sender=cmitm)))
+            except TimeoutError:
+                res = []
+            finally:
+                signal.alarm(0)
+            bad = [describe(r) for r in res if not isinstance(r, Exception) and r.value != authentic.value]
+            if bad:
+                out.fail({"kind": "forgery-in-flight", "hash": hashname, "requests_in_flight": inflight}, bad[0],
+                         "an exception or exactly " + describe(authentic))
 
 
 def forge(reply, mode, ag):
@@ -522,6 +667,57 @@ def suite_ops(out, tier, seed, part=None):
                     out.fail({"kind": "op", "op": "set", "oid": o, "dev": ag.dev}, repr(res or exc), "SnmpError")
             elif exc is not None or describe(res) != describe(val):
                 out.fail({"kind": "op", "op": "set", "oid": o}, repr(res or exc), describe(val))
+        # ---- LARGE: long OID lists (chunking, caps and thresholds act only there)
+        for k in (11, 17, 49, 70, 130, 300):
+            oids = [present[(5 * i + k) % len(present)] for i in range(k)]
+            ag = Scripted(OPS_DB)
+            out.case(("multiget-large", k))
+            res, exc = attempt(client(ag).multiget([OID(otext(o)) for o in oids]))
+            want = [describe_node(ag.db.get(o)) for o in oids]
+            nreq = len([1 for x in ag.log]) if hasattr(ag, "log") else None
+            if exc is not None or [describe(v) for v in res] != want:
+                out.fail({"kind": "op", "op": "multiget", "oids": oids}, repr(exc) if exc else "%d values, first difference at position %s" % (
+                    len(res), next((i for i, (a, b) in enumerate(zip([describe(v) for v in res], want)) if a != b), min(len(res), len(want)))),
+                    "the %d values of the agent in request order" % k)
+            ag = Scripted(OPS_DB)
+            out.case(("multigetnext-large", k))
+            oids = [present[:-1][(5 * i + k) % (len(present) - 1)] for i in range(k)]
+            res, exc = attempt(client(ag).multigetnext([OID(otext(o)) for o in oids]))
+            succs = [ag.db.succ(o) for o in oids]
+            if all(x is not None for x in succs):
+                if exc is not None or [tuple(vb.oid.nodes) for vb in res] != succs:
+                    out.fail({"kind": "op", "op": "multigetnext", "oids": oids}, repr(exc) if exc else "%d bindings" % len(res),
+                             "the successor of each of the %d OIDs in request order" % k)
+            ag = Scripted(OPS_DB)
+            uniq = sorted(set(oids))
+            out.case(("multiset-large", len(uniq)))
+            res, exc = attempt(client(ag).multiset({OID(otext(o)): Integer(i) for i, o in enumerate(uniq)}))
+            if exc is not None or {tuple(kk.nodes): vv.value for kk, vv in res.items()} != {tuple(o): i for i, o in enumerate(uniq)}:
+                out.fail({"kind": "op", "op": "multiset", "oids": uniq}, repr(exc) if exc else "%d confirmed" % len(res),
+                         "what the agent confirmed for each of the %d OIDs" % len(uniq))
+        for nrep, m in ((4, 5), (12, 6), (30, 3)):
+            reps = [present[(3 * i) % len(present)][:-1] for i in range(nrep)]
+            reps = sorted(set(reps))
+            ag = Scripted(OPS_DB)
+            out.case(("bulkget-large", len(reps), m))
+            res, exc = attempt(client(ag).bulkget([], [OID(otext(o)) for o in reps], m))
+            if exc is not None:
+                out.fail({"kind": "op", "op": "bulkget", "repeaters": reps, "max": m}, repr(exc), "a conformant GETBULK answer is accepted")
+            else:
+                # what a conformant agent sends: m rows of successors, interleaved
+                rows, cur = [], list(reps)
+                for _ in range(m):
+                    cur = [ag.db.succ(o) if o is not None else None for o in cur]
+                    rows.extend(cur)
+                live = []
+                for o in rows:
+                    if o is None:
+                        break
+                    live.append(o)
+                got = [tuple(kk.nodes) for kk in res.listing]
+                wantl = list(dict.fromkeys(live))
+                if got != wantl and len(set(live)) == len(live):
+                    out.fail({"kind": "op", "op": "bulkget", "repeaters": reps, "max": m}, "%d listed" % len(got), "%d repeater bindings in the agent's order" % len(wantl))
     # ---- C07: request-id echo / perturbation with a stepping clock
     if part in (None, "C07"):
         import puresnmp.api.raw as raw
@@ -531,7 +727,8 @@ def suite_ops(out, tier, seed, part=None):
         raw.get_request_id = lambda: next(tick)
         try:
             for op in ("get", "getnext", "set", "bulkget", "walk"):
-                for off in (0, 1, -1, 12345):
+                # (LARGE: offsets that keep the low 31 / 32 bits - ids of five and more octets)
+                for off in (0, 1, -1, 12345, 2 ** 31, 2 ** 32, -2 ** 32, 3 * 2 ** 32, 2 ** 40):
                     ag = Scripted(OPS_DB, rid_offset=off)
                     c = client(ag)
                     out.case(("rid", op, off))
@@ -609,6 +806,10 @@ def suite_ops(out, tier, seed, part=None):
                  "walk": lambda: collect(w.walk("1.3.1")), "multiwalk": lambda: collect(w.multiwalk(["1.3.1"])),
                  "bulkwalk": lambda: collect(w.bulkwalk(["1.3.1"], 3)), "bulkget": lambda: w.bulkget(["1.3.1.1"], ["1.3.1.2"], 3),
                  "table": lambda: w.table("1.3.1"), "bulktable": lambda: w.bulktable("1.3")}
+        # LARGE: long lists, walks and tables past ten rows and past the two-digit index boundary
+        big = [otext(present[(5 * i) % len(present)]) for i in range(40)]
+        calls.update({"multiget-40": lambda: w.multiget(big), "multiget-11": lambda: w.multiget(big[:11]),
+                      "multiset-12": lambda: w.multiset({o_: Integer(1) for o_ in big[:12]})})
         for name, mk in calls.items():
             out.case(("py", name))
             res, exc = attempt(mk())
@@ -801,6 +1002,76 @@ def suite_malformed(out, tier, seed):
                 signal.alarm(0)
 
 
+        # ---- LARGE: a run of bad datagrams on ONE client (a resource taken per exchange and given back only on success runs
+        #      out after a few), then a valid exchange
+        for nbad in (5, 12, 40):
+            ms = [m for m in mutants(cap[target]) if m[0] in ("truncate", "subst")]
+            rnd.shuffle(ms)
+            queue = [m[2] for m in ms[:nbad]]
+            state = {"left": list(queue)}
+
+            async def sender_run(endpoint, data, timeout=1, loop=None, retries=10, state=state):
+                reply = await base_agent(endpoint, data)
+                is_disco = cfg.startswith("v3") and ber.parse_v3_message(data)["user"] == b""
+                if state["left"] and (("discovery" if is_disco else "response") == target):
+                    return state["left"].pop()
+                return reply
+            c = Client("127.0.0.1", creds, sender=sender_run)
+            out.case((cfg, "run-of-bad-datagrams", nbad))
+            scen = {"kind": "malformed-run", "config": cfg, "auth": bool(auth), "bad_datagrams": nbad}
+            hung = False
+            for _i in range(nbad):
+                nxt = state["left"][-1] if state["left"] else b""
+                signal.alarm(2)
+                try:
+                    run(c.get(OID("1.3.1.1.0")))
+                except TimeoutError:
+                    hung = True
+                    if not d15_pattern(nxt):          # (a single datagram that hangs by itself is reported by the sweep above)
+                        out.fail(scen, "the request after %d refused datagrams hangs" % _i, "the client is usable for the next request")
+                    break
+                except Exception:
+                    pass
+                finally:
+                    signal.alarm(0)
+            if hung:
+                continue
+            state["left"] = []
+            signal.alarm(3)
+            try:
+                got = run(c.get(OID("1.3.1.2.0")))
+                if got.value != 2:
+                    out.fail(scen, "follow-up request returned %r" % (got,), "Integer(2)")
+            except TimeoutError:
+                out.fail(scen, "the request after %d refused datagrams hangs" % nbad, "the client is usable for the next request")
+            except Exception as e:  # noqa
+                out.fail(scen, "the request after %d refused datagrams failed: %s: %s" % (nbad, type(e).__name__, e),
+                         "the client is usable for the next request")
+            finally:
+                signal.alarm(0)
+    # ---- LARGE: valid datagrams with many bindings: time stays proportional to the size
+    for nvb in (50, 400, 1500):
+        bigdb = [((1, 3, 7, i), ("int", ber.INT, i)) for i in range(1, nvb + 1)]
+        ag = agent.CommunityAgent(bigdb)
+        c = Client("127.0.0.1", V2C("public"), sender=ag)
+        out.case(("many-bindings", nvb))
+        t0 = time.process_time()
+        signal.alarm(6)
+        try:
+            res = run(c.multiget([OID(otext(o)) for o, _ in bigdb]))
+            cpu = time.process_time() - t0
+            if [v.value for v in res] != list(range(1, nvb + 1)):
+                out.fail({"kind": "many-bindings", "bindings": nvb}, "wrong values", "the agent's values")
+            elif cpu > 0.004 * nvb + 0.5:
+                out.fail({"kind": "many-bindings", "bindings": nvb}, "%.2f s CPU" % cpu, "time bounded by a small multiple of the datagram size")
+        except TimeoutError:
+            out.fail({"kind": "many-bindings", "bindings": nvb}, "no end within 6 s", "time bounded by a small multiple of the datagram size")
+        except Exception as e:  # noqa
+            out.fail({"kind": "many-bindings", "bindings": nvb}, "%s: %s" % (type(e).__name__, e), "the agent's values")
+        finally:
+            signal.alarm(0)
+
+
 SUITES["malformed"] = suite_malformed
 
 
@@ -873,6 +1144,88 @@ def suite_faulty(out, tier, seed):
             out.fail(scen, "lenient mode raised FaultySNMPImplementation", "ends normally in lenient mode")
 
 
+    # ---- LARGE: sub-identifiers across the boundaries of their base-128 encoding; an agent stepping BACK across one
+    for hi in (128, 16384, 2 ** 21, 2 ** 28, 2 ** 32 - 1, 300):
+        for bulk in (None, 1, 2):
+            for errors in ("strict", "warn"):
+                reqs = []
+
+                def back(pdu, vbs, hi=hi):
+                    qs = [tuple(o) for o, _ in pdu["varbinds"]]
+                    reqs.append(qs)
+                    q = qs[0]
+                    m = max(pdu["f2"], 1) if pdu["tag"] == ber.GETBULK else 1
+                    if q == (1, 3, 9):
+                        nx = (1, 3, 9, hi)          # a first instance
+                    else:
+                        nx = (1, 3, 9, q[3] - 1)    # ... then backwards
+                    return [(nx, ("int", ber.INT, 1))] * 1 + [((1, 3, 9, nx[3] - 1 - j), ("int", ber.INT, 1)) for j in range(m - 1)]
+                ag = agent.CommunityAgent([], misbehave=back)
+                c = Client("127.0.0.1", V2C("public"), sender=ag)
+
+                async def go2(c=c, bulk=bulk, errors=errors):
+                    fetcher = c._bulkwalk_fetcher(bulk) if bulk else None
+                    return [vb async for vb in c.multiwalk([OID("1.3.9")], fetcher=fetcher, errors=errors)]
+                out.case(("backwards", hi, bulk, errors))
+                scen = {"kind": "faulty-walk-backwards", "first_instance_arc": hi, "bulk": bulk, "errors": errors}
+                signal.alarm(5)
+                try:
+                    run(go2())
+                    exc = None
+                except TimeoutError:
+                    out.fail(scen, "no end within 5 s", "the walk ends")
+                    continue
+                except Exception as e:  # noqa
+                    exc = e
+                finally:
+                    signal.alarm(0)
+                # the answer to the second request does not advance beyond the OID the walk continued from (within one GETBULK
+                # column only the OID the walk would continue from is compared: DESIGN 0.8)
+                limit = 2
+                if len(reqs) > limit:
+                    out.fail(scen, "%d requests; the agent stepped back from arc %d" % (len(reqs), hi),
+                             "the walk ends with the non-advancing answer (%d requests)" % limit)
+                elif errors == "strict" and not isinstance(exc, FaultySNMPImplementation):
+                    out.fail(scen, repr(exc), "FaultySNMPImplementation")
+                elif errors == "warn" and exc is not None:
+                    out.fail(scen, repr(exc), "ends normally in lenient mode")
+
+
+    # ---- LARGE: many roots; the agent answers the first request properly and then echoes
+    for nroots in (4, 5, 8, 12):
+        for bulk in (None, 2):
+            for errors in ("strict", "warn"):
+                reqs = []
+                roots = [(1, 3, 20 + i) for i in range(nroots)]
+
+                def echo_later(pdu, vbs):
+                    qs = [tuple(o) for o, _ in pdu["varbinds"]]
+                    reqs.append(qs)
+                    m = max(pdu["f2"], 1) if pdu["tag"] == ber.GETBULK else 1
+                    if len(reqs) > 50:
+                        raise RuntimeError("runaway")
+                    return [((q + (1,)) if len(q) == 3 else q, ("int", ber.INT, 1)) for _ in range(m) for q in qs]
+                ag = agent.CommunityAgent([], misbehave=echo_later)
+                c = Client("127.0.0.1", V2C("public"), sender=ag)
+
+                async def go3(c=c, bulk=bulk, errors=errors, roots=roots):
+                    fetcher = c._bulkwalk_fetcher(bulk) if bulk else None
+                    return [vb async for vb in c.multiwalk([OID(otext(r)) for r in roots], fetcher=fetcher, errors=errors)]
+                out.case(("many-roots-echo", nroots, bulk, errors))
+                scen = {"kind": "faulty-walk-many-roots", "roots": nroots, "bulk": bulk, "errors": errors}
+                try:
+                    got = run(go3())
+                    exc = None
+                except Exception as e:  # noqa
+                    got, exc = None, e
+                if errors == "strict" and not isinstance(exc, FaultySNMPImplementation):
+                    out.fail(scen, repr(exc) if exc else "ended normally with %d instances" % len(got), "FaultySNMPImplementation")
+                elif errors == "warn" and exc is not None:
+                    out.fail(scen, repr(exc), "ends normally in lenient mode")
+                elif len(reqs) > 2 * nroots:
+                    out.fail(scen, "%d requests" % len(reqs), "bounded by the instances revealed")
+
+
 # ============================================================================ interop (C10 C11 C12)
 
 def suite_interop(out, tier, seed, part=None):
@@ -892,6 +1245,10 @@ def suite_interop(out, tier, seed, part=None):
                 eid = bytes([0x80, 0x00, 0x1f, 0x88, 0x02]) + bytes(16)
             clock = {"t": 1000}
             payload_size = rnd.choice(sizes)
+            if plen == 299:
+                # LARGE: the longest engine id RFC 3411 allows, a scoped PDU beyond the one-octet and the 0x81 length forms
+                eid = bytes([0x80, 0x00, 0x1f, 0x88, 0x05]) + bytes((7 * i + 3) % 256 for i in range(27))
+                payload_size = rnd.choice([200, 300, 700, 1400])
             db = [((1, 3, 6, 1, 2, 1, 1, 1, 0), ("bytes", ber.OCTETS, bytes(payload_size))), ((1, 3, 6, 1, 2, 1, 1, 2, 0), ("int", ber.INT, 5))]
             ag = agent.V3Agent(db, auth=(hashname, pw) if hashname else None, priv=privpw, engine_id=eid, clock=lambda: clock["t"])
             creds = V3("user", Auth(pw, hashname) if hashname else None, Priv(privpw, "refstream") if privpw else None)
@@ -912,16 +1269,25 @@ def suite_interop(out, tier, seed, part=None):
                 reqs = [p for p in ag.parsed[n_before:] if p["user"] != b""]
                 bad_stats = {k: v - before[k] for k, v in ag.stats.items() if v != before[k] and k != "unknownEngineIDs"}
                 want_flags = 4 | (2 if privpw else 0) | (1 if hashname else 0)
-                if part in (None, "C10"):
+                if part in (None, "C10", "C05"):
                     if bad_stats:
                         out.fail(dict(scen, op=name), "agent refused the request: %r" % bad_stats, "accepted by an independent RFC 3414 engine")
                     elif any(p["flags"] != want_flags for p in reqs):
                         out.fail(dict(scen, op=name), "msgFlags %r" % [p["flags"] for p in reqs], "msgFlags %d" % want_flags)
-                    elif exc is not None:
+                    elif exc is not None and part != "C05":
+                        # (C05 speaks about the datagrams the client EMITS: what it does with the answer is C10 / C06)
                         # authentic minimal-BER response rejected: the known pattern is a re-encoded length of exactly 127
                         fid = "D9" if type(exc).__name__ == "AuthenticationError" else None
                         out.fail(dict(scen, op=name), "response rejected: %s: %s" % (type(exc).__name__, exc),
                                  "authentic response accepted", finding=fid)
+                if part in (None, "C11") and privpw and not bad_stats and exc is not None and type(exc).__name__ != "AuthenticationError":
+                    # the answer of a peer that encrypts with the same plug-in and key must be read back (an authentication
+                    # failure is C10's and C06's subject: finding D9)
+                    out.fail(dict(scen, op=name), "encrypted response not read back: %s: %s" % (type(exc).__name__, exc),
+                             "the peer's encrypted response is decrypted and returned")
+                if part in (None, "C11") and privpw and bad_stats:
+                    out.fail(dict(scen, op=name), "the peer could not read the encrypted request: %r" % bad_stats,
+                             "decryptable with the privacy key localised for the peer's engine")
                 if part in (None, "C11") and privpw and reqs:
                     clear = ber.encode(("bytes", ber.OCTETS, bytes(payload_size))) if False else None
                     raw = ag.datagrams[-1]
@@ -941,6 +1307,7 @@ def suite_interop(out, tier, seed, part=None):
 
 
 SUITES.update({"faulty": suite_faulty, "interop": suite_interop, "interop-C10": lambda o, t, s: suite_interop(o, t, s, "C10"),
+               "interop-C05": lambda o, t, s: suite_interop(o, t, s, "C05"),
                "interop-C11": lambda o, t, s: suite_interop(o, t, s, "C11"), "interop-C12": lambda o, t, s: suite_interop(o, t, s, "C12")})
 
 
@@ -1033,6 +1400,121 @@ def suite_udp(out, tier, seed):
                  "the OS error of the attempt, or Timeout only after 2 x %.2fs" % T)
 
 
+    # ---- LARGE / exact: the same under VIRTUAL time (an event loop whose clock jumps to the next timer) with a scripted endpoint
+    #      handed to send_udp as its `loop` argument: the time-out instants are compared exactly, for retries up to 6
+    import heapq
+
+    class VLoop(asyncio.SelectorEventLoop):
+        def __init__(self):
+            super().__init__()
+            self._vt = 0.0
+
+        def time(self):
+            return self._vt
+
+        def _run_once(self):
+            while self._scheduled and self._scheduled[0]._cancelled:
+                h = heapq.heappop(self._scheduled)
+                h._scheduled = False
+            if not self._ready and self._scheduled and self._scheduled[0]._when > self._vt:
+                self._vt = self._scheduled[0]._when
+            super()._run_once()
+
+    class FakeTransport:
+        def __init__(self):
+            self.sent, self.closed = [], False
+
+        def sendto(self, data, addr=None):
+            self.sent.append(bytes(data))
+
+        def close(self):
+            self.closed = True
+
+        def abort(self):
+            self.closed = True
+
+        def is_closing(self):
+            return self.closed
+
+        def get_extra_info(self, name, default=None):
+            return default
+
+    def virtual(plan, retries, timeout):
+        vloop = VLoop()
+        transports = []
+
+        class Proxy:
+            async def create_datagram_endpoint(self, factory, remote_addr=None, **kw):
+                k = len(transports)
+                tr = FakeTransport()
+                transports.append(tr)
+                proto = factory()
+                proto.connection_made(tr)
+                what = plan[k] if k < len(plan) else "drop"
+                addr = ("127.0.0.1", 161)
+                deliver = lambda payload: (None if tr.closed else proto.datagram_received(payload, addr))      # noqa: E731
+                if what == "reply":
+                    vloop.call_later(timeout / 4, deliver, b"reply-%d" % k)
+                elif what == "double":
+                    vloop.call_later(timeout / 4, deliver, b"reply-%d" % k)
+                    vloop.call_later(timeout / 3, deliver, b"second-%d" % k)
+                elif what == "late":
+                    vloop.call_later(timeout * 1.5, deliver, b"late-%d" % k)
+                elif what == "icmp":
+                    vloop.call_later(timeout / 4, lambda: None if tr.closed else proto.error_received(ConnectionRefusedError("icmp")))
+                elif what == "lost":
+                    vloop.call_later(timeout / 4, lambda: None if tr.closed else proto.connection_lost(OSError("lost")))
+                return tr, proto
+
+        async def go():
+            t0 = vloop.time()
+            try:
+                res, exc = await send_udp(Endpoint(ip_address("127.0.0.1"), 161), b"request-bytes", timeout=timeout, loop=Proxy(), retries=retries), None
+            except (Exception, asyncio.CancelledError) as e:  # noqa
+                res, exc = None, e
+            t1 = vloop.time()
+            await asyncio.sleep(timeout * 3)
+            return res, exc, t1 - t0
+        try:
+            asyncio.set_event_loop(vloop)
+            return vloop.run_until_complete(go()) + (transports,)
+        finally:
+            asyncio.set_event_loop(None)
+            vloop.close()
+    vplans = [tuple(["drop"] * r) for r in range(1, 7)]
+    vplans += [p for r in (1, 2, 3, 4) for p in itertools.product(["reply", "drop", "late", "double", "icmp", "lost"], repeat=r)
+               if tier != "quick" or rnd.random() < 0.04]
+    vplans += [("drop", "drop", "drop", "reply"), ("late", "late", "late", "late"), ("drop", "late", "drop", "drop", "drop", "reply")]
+    for plan in vplans:
+        for timeout in ((1, 0.25) if tier == "quick" else (1, 0.25, 6, 3)):
+            retries = len(plan)
+            out.case(("udp-virtual", plan, timeout))
+            res, exc, elapsed, transports = virtual(plan, retries, timeout)
+            scen = {"kind": "udp-virtual", "plan": list(plan), "retries": retries, "timeout": timeout}
+            first = next((i for i, w in enumerate(plan) if w in ("reply", "double", "icmp", "lost")), None)
+            sent = [d for t in transports for d in t.sent]
+            if any(not t.closed for t in transports):
+                out.fail(scen, "%d of %d endpoints never closed" % (len([t for t in transports if not t.closed]), len(transports)), "no socket left open")
+            if any(d != b"request-bytes" for d in sent) or len(sent) > retries or any(len(t.sent) != 1 for t in transports):
+                out.fail(scen, "datagrams sent: %r" % sent, "at most `retries` identical requests, one per attempt")
+            if first is not None and plan[first] in ("reply", "double"):
+                want_t = first * timeout + timeout / 4
+                if exc is not None or res != b"reply-%d" % first or abs(elapsed - want_t) > 1e-6:
+                    out.fail(scen, "%r after %.3f s" % (res or exc, elapsed), "the first reply's bytes (attempt %d) %.3f s after the call" % (first, want_t))
+            elif first is not None:
+                # an OS error of an attempt: the error itself, at once - or the attempt counts as unanswered for its whole time-out
+                if isinstance(exc, Timeout):
+                    if abs(elapsed - retries * timeout) > 1e-6 or len(sent) != retries:
+                        out.fail(scen, "Timeout after %.3f s and %d datagrams" % (elapsed, len(sent)),
+                                 "the OS error of the attempt, or Timeout after exactly %d x %s s" % (retries, timeout))
+                elif not isinstance(exc, OSError):
+                    out.fail(scen, repr(res or exc), "the OS error of the attempt or Timeout")
+            else:
+                if not isinstance(exc, Timeout) or len(sent) != retries or abs(elapsed - retries * timeout) > 1e-6:
+                    out.fail(scen, "%r after %.3f s and %d datagrams" % (exc, elapsed, len(sent)),
+                             "Timeout after exactly %d attempts of %s s (%.3f s)" % (retries, timeout, retries * timeout))
+
+
 # ============================================================================ concurrent (C14)
 
 def suite_concurrent(out, tier, seed):
@@ -1094,6 +1576,86 @@ def suite_concurrent(out, tier, seed):
                     break
 
 
+        # ---- LARGE: many operations in flight, several of them refused by the agent, long OID lists answered out of order
+        holder = {}
+        for trial in range(2 if tier == "quick" else 20):
+            def refuse_sets(pdu, vbs):
+                if pdu["tag"] == ber.SET and pdu["varbinds"][0][0][-1] == 9:
+                    for o_, _v in pdu["varbinds"]:                 # (the reference agent has stored it already: undo)
+                        if tuple(o_) in holder["agent"].db.vals:
+                            del holder["agent"].db.vals[tuple(o_)]
+                            holder["agent"].db.oids.remove(tuple(o_))
+                    return (17, 1, list(pdu["varbinds"]))          # notWritable
+                return vbs
+            base = (agent.CommunityAgent(db, misbehave=refuse_sets) if cfg == "v2c"
+                    else agent.V3Agent(db, auth=("md5", b"authpass1"), priv=None, misbehave=refuse_sets))
+            holder["agent"] = base
+            creds = V2C("public") if cfg == "v2c" else V3("user", Auth(b"authpass1", "md5"))
+            pending = []
+
+            async def sender2(endpoint, data, timeout=1, loop=None, retries=10, pending=pending):
+                fut = asyncio.get_running_loop().create_future()
+                pending.append((fut, data))
+                return await fut
+
+            async def scheduler2(order_rnd, pending=pending, base=base):
+                idle = 0
+                while idle < 200:
+                    await asyncio.sleep(0)
+                    if not pending:
+                        idle += 1
+                        continue
+                    idle = 0
+                    fut, data = pending.pop(order_rnd.randrange(len(pending)))
+                    if not fut.done():
+                        fut.set_result(await base(None, data))
+            c = Client("127.0.0.1", creds, sender=sender2)
+            many = [x for x, _ in db] * 3
+            rnd.shuffle(many)
+
+            async def do2(op, o, c=c):
+                if op == "get":
+                    return (await c.get(OID(otext(o)))).value
+                if op == "badset":
+                    return (await c.set(OID(otext(o)), Integer(1))).value
+                if op == "mget":
+                    return [v.value for v in await c.multiget([OID(otext(x)) for x in o])]
+                if op == "walk":
+                    return [tuple(v.oid.nodes) async for v in c.walk(OID(otext(o)))]
+                return [tuple(v.oid.nodes) async for v in c.bulkwalk([OID(otext(o))], 2)]
+            chosen = [("badset", (1, 3, 1, 1, 9))] * (3 + 3 * trial) + [("get", (1, 3, 1, 1, 1)), ("walk", (1, 3, 1)), ("mget", tuple(many)),
+                                                                      ("bulk", (1, 3, 1, 2)), ("get", (1, 3, 1, 3, 3))]
+            rnd.shuffle(chosen)
+
+            async def main2():
+                sch = asyncio.ensure_future(scheduler2(random.Random(rnd.random())))
+                try:
+                    return await asyncio.wait_for(asyncio.gather(*[do2(op, o) for op, o in chosen], return_exceptions=True), 8)
+                except asyncio.TimeoutError:
+                    return None
+                finally:
+                    sch.cancel()
+            out.case((cfg, "large", trial))
+            res = run(main2())
+            scen = {"kind": "concurrent-large", "config": cfg, "ops": [a for a, _ in chosen]}
+            if res is None:
+                out.fail(scen, "the operations did not all complete within 8 s", "every operation completes with the result it has alone")
+                continue
+            for (op, o), r in zip(chosen, res):
+                if op == "badset":
+                    ok = isinstance(r, Exception) and type(r).__name__ == "NotWritable"
+                    want = "NotWritable"
+                elif op == "mget":
+                    want = [dict(db)[x][2] for x in o]
+                    ok = r == want
+                else:
+                    want = alone(op, o)
+                    ok = not isinstance(r, Exception) and (sorted(r) if isinstance(r, list) else r) == want
+                if not ok:
+                    out.fail(dict(scen, op=op), repr(r)[:200], want if not isinstance(want, list) else "%d values in request order" % len(want))
+                    break
+
+
 # ============================================================================ tables (C16)
 
 def suite_tables(out, tier, seed):
@@ -1127,6 +1689,36 @@ def suite_tables(out, tier, seed):
                 got, ok = repr(e), False
             if not ok:
                 out.fail({"kind": "table", "cells": [list(o) for o in sorted(cells)], "bulk": bulk, "table": list(table)}, got, want)
+
+
+    # ---- LARGE: tables of more than a thousand cells, indices crossing the one / two / three digit boundaries
+    for ncol, nrow in ((2, 600), (22, 50)) if tier == "quick" else ((2, 600), (22, 50), (3, 1200), (40, 30)):
+        table = (1, 3, 6, 5, 2)
+        entry = table + (1,)
+        cells = {entry + (col, ix): ("int", ber.INT, 1000 * col + ix) for col in range(1, ncol + 1) for ix in range(1, nrow + 1)}
+        db = list(cells.items()) + [((1, 3, 6, 5, 1, 1), ("int", ber.INT, 1)), ((1, 3, 6, 5, 20, 1, 1, 1), ("int", ber.INT, 2)),
+                                    ((1, 3, 6, 5, 3, 1, 1, 1), ("int", ber.INT, 3))]
+        want = {}
+        for o, v in cells.items():
+            want.setdefault(str(o[-1]), {"0": str(o[-1])})[str(o[len(entry)])] = v[2]
+        for bulk in (None, 10, 50):
+            ag = agent.CommunityAgent(db)
+            c = Client("127.0.0.1", V2C("public"), sender=ag)
+            out.case(("large-table", ncol, nrow, bulk))
+            signal.alarm(60)
+            try:
+                rows = run(c.bulktable(OID(otext(table)), bulk_size=bulk)) if bulk else run(c.table(OID(otext(entry))))
+                got = {r["0"]: {k: (v if k == "0" else v.value) for k, v in r.items()} for r in rows}
+                ok = got == want and len(rows) == len(want)
+                obs = "%d rows, %d cells" % (len(rows), sum(len(r) - 1 for r in rows))
+            except TimeoutError:
+                ok, obs = False, "no end within 60 s"
+            except Exception as e:  # noqa
+                ok, obs = False, repr(e)
+            finally:
+                signal.alarm(0)
+            if not ok:
+                out.fail({"kind": "large-table", "columns": ncol, "rows": nrow, "bulk": bulk}, obs, "%d rows, %d cells" % (nrow, ncol * nrow))
 
 
 # ============================================================================ config (C18)
@@ -1255,8 +1847,13 @@ def suite_trap(out, tier, seed):
         return ber.build_community_message(1, comm, ber.build_pdu(ber.TRAP2, 77, 0, 0, vbs)), vbs
     seq = []
     foreign_communities = [b"other", b"trapcomm\xff", b"\x80trapcomm", b"trapcom", b"trapcommm", b"", b"TRAPCOMM"]
-    for step in range(30 if tier == "quick" else 600):
-        kind = rnd.choice(["valid", "valid", "foreign", "truncated", "garbage", "other-version"])
+    schedule = [(None, None)] * (30 if tier == "quick" else 600)
+    # LARGE: long runs of refused datagrams from ONE host, then valid notifications from that host
+    for run_len in (5, 12, 40):
+        host = ("198.51.100.7", 40000 + run_len)
+        schedule += [(("foreign", "truncated", "garbage")[i % 3], host) for i in range(run_len)] + [("valid", host), ("valid", host)]
+    for step, (fixed_kind, fixed_addr) in enumerate(schedule):
+        kind = fixed_kind or rnd.choice(["valid", "valid", "foreign", "truncated", "garbage", "other-version"])
         if step == 0:
             kind = "other-version"       # the listener's first datagram is a well-formed SNMPv1 message
         data, vbs = trap_bytes(b"trapcomm" if kind != "foreign" else foreign_communities[step % len(foreign_communities)],
@@ -1269,7 +1866,7 @@ def suite_trap(out, tier, seed):
             data = bytes(rnd.randrange(256) for _ in range(rnd.randint(0, 40)))
         seq.append(kind)
         before = len(got)
-        addr = ("192.0.2.%d" % rnd.randint(1, 200), rnd.randint(1024, 65000))
+        addr = fixed_addr or ("192.0.2.%d" % rnd.randint(1, 200), rnd.randint(1024, 65000))
         out.case(("trap", kind, len(seq)))
 
         async def inject():
